@@ -2116,10 +2116,12 @@ Qed.
 
 (* (1) a mode string fs.mode.Mode accepts and io.open refuses ("rw"): OSFS.openbin raises ValueError from
        inside io.open, MemoryFS and the reference perform the call.  Confirmed on the real OSFS. *)
-Example osfs_refines_ref_iomode_ce :
+(* Since /repo af07be9 fs.mode.Mode refuses such modes itself (FS/Mode.v mode_valid), so every backend and the
+   reference answer ValueError alike: the former counterexample now agrees. *)
+Example osfs_refines_ref_iomode_now_agrees :
   let o := OOpenwrite (lit "f") (lit "rw") (lit "XY") in
-  covered o = true /\ os_mode_ok o = false /\
-  agree_nt (osfs_run o ce_state) (ref_run o ce_state) = false /\
+  covered o = true /\ os_mode_ok o = true /\
+  agree_nt (osfs_run o ce_state) (ref_run o ce_state) = true /\
   snd (osfs_run o ce_state) = Crash ValueError /\ agree (mem_run o ce_state) (ref_run o ce_state) = true.
 Proof. vm_compute. repeat split. Qed.
 
